@@ -84,7 +84,7 @@ pub const REGEXES: &[&str] = &[
     "a", "o", "b$", "^a", "[a-z]+", "\\d+", "\\w+", "\\s+", ".", ".*", "a|b", "(a)(b)?", "(\\w)(\\w)", "(?P<x>\\w+)",
     "x{2}", "[0-9]{1,2}", "^$", "é", "[^,]+", "\\.txt$", "^[A-Z]", "l+", "(?i)hello", "\\bfoo\\b", "a.c", "^.+$", "(o)(o)?", "B",
 ];
-pub const BAD_REGEXES: &[&str] = &["(", "[a", "*a", "a**", "(?P<x", "\\"];
+pub const BAD_REGEXES: &[&str] = &["(", "[a", "*a", "a**", "(?P<x"];
 
 pub fn regex(rng: &mut Rng) -> String {
     if rng.chance(1, 25) { rng.pick(BAD_REGEXES).to_string() } else { rng.pick(REGEXES).to_string() }
